@@ -235,9 +235,14 @@ static bool build_case(uint64_t seed, Case &c, std::string &skip) {
         Bytes var; VariantStats vs;
         if(!ber_variant(E, rvar, var, vs, &hints)) { skip = "variant_unparsable"; return false; }
         E = var;
-        G.add("c05.variant.indefinite", vs.indefinite); G.add("c05.variant.longform", vs.longform); G.add("c05.variant.segmented", vs.segmented); G.add("c05.variant.alternative_primitive", vs.alternative);
+        G.add("c05.variant.indefinite", vs.indefinite); G.add("c05.variant.longform", vs.longform); G.add("c05.variant.segmented", vs.segmented); G.add("c05.variant.alternative_primitive", vs.alternative); G.add("c05.variant.set_reordered", vs.reordered); G.add("c05.variant.unknown_extension", vs.unknown_ext);
     }
     if(c.sy == SY_XER || c.sy == SY_CXER) xer_strip_trailing_ws(E);
+    if(c.sy == SY_XER && rvar.chance(1, 2)) {
+        Bytes var; XerVariantStats xs; xer_variant(E, rvar, var, xs);
+        E = var; c.head.set("xer_variant", "1");
+        G.add("c05.variant.xer_whitespace", xs.whitespace); G.add("c05.variant.xer_comments", xs.comments); G.add("c05.variant.xer_emptytags", xs.emptytags); G.add("c05.variant.xer_charrefs", xs.charrefs);
+    }
     if(c.sy == SY_DER || c.sy == SY_BER) {
         if(ber_end_of_encoding(E) != E.size()) { skip = "eoe_mismatch"; return false; }
     }
